@@ -44,7 +44,12 @@ pub fn check_file(case: &ProjCase, out: &imp::Outcome, i: usize, which: Which, s
     if damaged && p.ast.is_none() {
         return Err(format!("file {id}: a file whose only defect is one malformed member (ending at its terminator) has no tree"));
     }
-    if !damaged && !p.diagnostics.is_empty() {
+    // an overflowing transact code is reported at the parse stage and the method is kept
+    let n_overflow = match &case.docs[i].expected.item {
+        ast::Item::Interface(it) => it.elements.iter().filter(|e| matches!(e, ast::InterfaceElement::Method(m) if crate::refval::has_unparsable_code(m))).count(),
+        _ => 0,
+    };
+    if !damaged && p.diagnostics.len() != n_overflow {
         return Err(format!("file {id}: well-formed generated document got a syntax-stage diagnostic: {}", cmp::describe(&p.diagnostics[0])));
     }
     let actual = v.ast.as_ref().ok_or_else(|| format!("file {id}: no tree for a {} document", if damaged { "recoverable" } else { "well-formed" }))?;
@@ -55,6 +60,31 @@ pub fn check_file(case: &ProjCase, out: &imp::Outcome, i: usize, which: Which, s
         st.class("damaged-file-compared-differentially");
     }
     let r: RefOut = match crate::refval::validate_ref(src_tree, &case.keys) {
+        Ok(r) if which == Which::C09 && crate::refval::tree_has_unparsable_code(src_tree) => {
+            // two readings of "carries an explicit code" for an overflowing code: accept the one
+            // the implementation follows, as long as it follows one of them completely
+            let alt = crate::refval::validate_ref_opt(src_tree, &case.keys, true).map_err(|e| e.to_string())?;
+            st.class("unparsable-code:two-readings");
+            let vd0: Vec<&Diagnostic> = imp::minus(&v.diagnostics, &p.diagnostics);
+            let mut dom9: HashSet<(usize, usize)> = HashSet::new();
+            if let ast::Item::Interface(itf) = &actual.item {
+                for el in &itf.elements {
+                    if let ast::InterfaceElement::Method(m) = el {
+                        dom9.insert(key(&m.symbol_range));
+                        dom9.insert(key(&m.transact_code_range));
+                    }
+                }
+            }
+            let in9 = |rg: &ast::Range| dom9.contains(&key(rg));
+            let first = cmp::compare_diags(&r.diags, &vd0, actual, &in9);
+            if first.is_ok() {
+                r
+            } else if cmp::compare_diags(&alt.diags, &vd0, actual, &in9).is_ok() {
+                alt
+            } else {
+                return Err(format!("file {id}: method-name / code diagnostics match neither reading of an overflowing transact code: {}", first.unwrap_err()));
+            }
+        }
         Ok(r) => r,
         Err(why) => {
             st.discard(&why);
